@@ -291,6 +291,33 @@ fn main() {
     }
   }
   space.insert("operator_trees".into(), json!(n_op_trees));
+  // operand kinds: every operator with every pair of operands out of a catalogue of primary, postfix,
+  // unary and parenthesised compound expressions (the printer has operand-dependent paths, e.g. for
+  // `<` after a member access, which could be read as the start of type arguments)
+  const OPERANDS: [&str; 24] = [
+    "a", "p.x", "p.m()", "a.b.c", "f(a)", "-a", "!a", "1", "\"s\"", "(p.x)", "(-a)", "(a + b)", "(a * b)", "(a :: b)", "(a == b)",
+    "(a < b)", "(a && b)", "(a || b)", "(if c { a } else { b })", "(match a { _ -> b })", "((x) -> a)", "((x: int, y: int) -> p.x)", "{ a }", "{ let z = a; p.x }",
+  ];
+  let mut n_operand_cases = 0u64;
+  for op in ALL_OPS {
+    for l in OPERANDS {
+      for r in OPERANDS {
+        let e = format!("{l} {op} {r}");
+        cases.push((exprgen::wrap_in_module(&e), 100, format!("operand kinds: {e}")));
+        n_operand_cases += 1;
+      }
+    }
+    // the same operands one level down, on either side of another operator
+    for inner in ["p.x", "(if c { a } else { b })", "(a == b)", "((x) -> a)"] {
+      for op2 in ALL_OPS {
+        for e in [format!("(p.x {op} {inner}) {op2} d"), format!("d {op2} ({inner} {op} p.x)"), format!("p.x {op} {inner} {op2} d")] {
+          cases.push((exprgen::wrap_in_module(&e), 100, format!("operand kinds nested: {e}")));
+          n_operand_cases += 1;
+        }
+      }
+    }
+  }
+  space.insert("operand_kind_cases".into(), json!(n_operand_cases));
   // literal classes, in expression position and as operands of each operator class
   let mut n_lit = 0;
   for lit in LITERALS {
